@@ -1,6 +1,6 @@
 From Coq Require Import Extraction ExtrOcamlBasic List ZArith.
-From MirV Require Import C03.Thunk C03.ArgPass.
+From MirV Require Import C03.Thunk C03.ArgPass C03.CodePatch.
 Extraction Language OCaml.
 Extraction "c03x.ml" redirect_bytes get_thunk_addr jump_target fresh_thunk_bytes
   init_world step run current_impl get_fn replace_bb_thunk_bytes get_bb_thunk_bytes bb_thunk_exec
-  ff_walk va_walk gen_walk wf_params.
+  ff_walk va_walk gen_walk wf_params change_code_region update_code_region protected.
